@@ -129,7 +129,7 @@ def _r3(prog, rep):
     if ok:
         r.check(arm[2][0] == d.words, "words", "words are passed unchanged", "arg 0 is the words parameter",
                 "wrap_first_fit receives %s instead of the words parameter" % describe(arm[2][0], body)[:160])
-        r.check(models.f64_image_of(prog, arm[2][1], d.widths), "widths",
+        r.check(models.f64_image_of(prog, arm[2][1], d.widths, body), "widths",
                 "line widths are the element-wise `as f64` image of the usize list", describe(arm[2][1], body)[:160],
                 "wrap_first_fit receives %s instead of line_widths.iter().map(|w| *w as f64).collect()" % describe(arm[2][1], body)[:200])
 
